@@ -167,4 +167,14 @@ CLAIMED = {
             "the signed ones.",
             "Bounds explicit; RevocationBitmap2022 status only; fail-fast order not compared.",
             "DESIGN.md §3 C02"),
+    "C03": ("TLA+ spec PresentationValidation (binding table + claims table) evaluated by TLC; every row issued as a real signed "
+            "presentation JWT and validated against a real holder document",
+            "model_checking",
+            "TLC enumerates 12 324 rows and computes acceptance (method selection by kid as full id or fragment or by configured "
+            "id inside the holder document incl. a listed foreign-DID key, scope, signing key, nonce, issuer claim = document "
+            "id; expiry/issuance boundaries with nbf deciding over iat and out-of-range dates; vp.holder / vp.id consistency); "
+            "the harness signs each row with real Ed25519 keys and runs JwtPresentationValidator::validate: accept <=> all "
+            "conditions, returned holder/id/aud/dates/custom claims equal the signed ones.",
+            "Bounds explicit; error kinds not compared.",
+            "DESIGN.md §3 C03"),
 }
